@@ -263,7 +263,30 @@ def aim_at_cached_references(case, rng):
     return case
 
 
+def leftover_empty_block(rng):
+    """a branch target in front of data is deleted (it has to stay as a zero-sized block), then the data behind it:
+    one at a time the second step starts from a module that already holds a zero-sized block"""
+    text = [
+        {"kind": "code", "func": 0, "entry": True, "insns": [["nop"]] * rng.randint(0, 2) + [["jmp", "A"]], "syms": [{"name": "W", "at_end": False}]},
+        {"kind": "code", "func": 0, "insns": [["nop"]] * rng.randint(1, 2) + [[rng.choice(["ret", "ret", "jmp"])] + ([] if True else [])], "syms": [{"name": "A", "at_end": False}]},
+        {"kind": "data", "bytes": [rng.randrange(256) for _ in range(rng.choice([1, 4]))], "syms": [{"name": "D", "at_end": False}]},
+        {"kind": "code", "func": 1, "entry": True, "insns": [["nop"]] * rng.randint(0, 1) + [["ret"]], "syms": [{"name": "C", "at_end": False}]},
+    ]
+    if text[1]["insns"][-1] == ["jmp"]:
+        text[1]["insns"][-1] = ["jmp", "C"]
+    if rng.random() < 0.4:
+        text.append({"kind": "data", "bytes": [1, 2], "syms": [{"name": "T", "at_end": False}]})
+    edits = [{"op": "delete", "block": 1, "off": 0, "len": emodify.block_size(text[1])},
+             {"op": "delete", "block": 2, "off": 0, "len": len(text[2]["bytes"])}]
+    if rng.random() < 0.3:
+        edits.append({"op": "insert", "block": 3, "off": 0, "asm": "nop"})
+    rng.shuffle(edits)
+    return {"isa": "X64", "ff": "ELF", "text": text, "externs": ["ext_a"], "edits": edits}
+
+
 def run(ctx):
+    for _ in range(ctx.budget(30, 600)):
+        check_case(ctx, leftover_empty_block(ctx.rng))
     for c in LE.load_corpus():
         check_case(ctx, c)
     for n in range(ctx.budget(600, 15000)):
